@@ -288,6 +288,20 @@ def gen_prot_desc(rng):
 def blob(rng, lens):
     return rbytes(rng, rng.choice(lens))
 
+def unencodable_header(rng):
+    """a built header whose encoding fails (repeated extra label / extra naming a populated typed field)"""
+    if rng.random() < 0.5:
+        l = rng.choice([I(1000), T("x"), I(-70000)])
+        return d_header(rest=[(l, I(1)), (l, I(2))])
+    return d_header(kid=b"k", rest=[(I(4), B(b"z"))])
+
+def builder_header_choice(rng):
+    """(description, protected bytes it must contribute) for a header handed to a builder's protected()"""
+    r = rng.random()
+    if r < 0.3: return D_EMPTY_HEADER, b""
+    h = gen_desc_header(rng, 0)
+    return h, (b"" if pyspec.header_empty(h) else enc(pyspec.header_map(h)))
+
 def cases_C03(rng, tier):
     out = []
     lens = Q(tier, LEN_CLASSES_Q, LEN_CLASSES_T)
@@ -300,6 +314,15 @@ def cases_C03(rng, tier):
         want = pyspec.sig_structure(ctx, bb, sb, aad, pl)
         out.append(case("sigdata", ctx, enc(body), enc(sign), aad, pl, fam="sig_structure_data",
                         expect="ok " + want.hex(), tuple=(ctx, bb, sb, aad, pl)))
+    for _ in range(Q(tier, 40, 400)):
+        # "always serializable" is an assumption: a built header that cannot be encoded must be refused
+        # (documented expect), never signed as if it were something else
+        bad = d_protected(None, unencodable_header(rng))
+        good, _gb = gen_prot_desc(rng)
+        ctx = rng.choice(list(pyspec.SIG_CTX))
+        out.append(case("sigdata", ctx, enc(bad), enc(NULL), b"a", b"p", fam="unencodable-body", expect="panic", may_panic=True))
+        out.append(case("sigdata", ctx, enc(good), enc(bad), b"a", b"p", fam="unencodable-signer", expect="panic", may_panic=True))
+        out.append(case("helperdesc", "sign1.tbs_data", enc(A(bad, D_EMPTY_HEADER, B(b"p"), B(b""))), b"a", fam="unencodable-body", expect="panic", may_panic=True))
     for _ in range(Q(tier, 300, 3000)):
         # through the message helpers, message given in memory
         body, bb = gen_prot_desc(rng)
@@ -379,14 +402,21 @@ def cases_C04(rng, tier):
             out.append(case("helperdesc", fn, enc(m), aad, fam=fn, expect="ok %s %s" % (tag.hex(), want.hex())))
         else:
             out.append(case("helperdesc", fn, enc(m), aad, fam=fn + "-nopayload", expect="panic", may_panic=True))
+    for _ in range(Q(tier, 40, 400)):
+        bad = d_protected(None, unencodable_header(rng))
+        ctx = rng.choice(list(pyspec.MAC_CTX))
+        out.append(case("macdata", ctx, enc(bad), b"a", b"p", fam="unencodable-protected", expect="panic", may_panic=True))
+        out.append(case("helperdesc", "mac0.verify_tag", enc(A(bad, D_EMPTY_HEADER, B(b"p"), B(b"t"))), b"a", fam="unencodable-protected", expect="panic", may_panic=True))
+        out.append(case("build", "CoseMac0", enc(A(A(T("protected"), unencodable_header(rng)), A(T("payload"), B(b"p")), A(T("create_tag"), B(b"a"), A(I(0), B(b"k"))))),
+                        fam="unencodable-protected", expect="panic", may_panic=True))
     for _ in range(Q(tier, 150, 1500)):
         # creation through the builders: the closure echoes what it was given
-        p_hdr = gen_desc_header(rng, 0)
-        pb = b"" if pyspec.header_empty(p_hdr) else enc(pyspec.header_map(p_hdr))
+        p_hdr, pb = builder_header_choice(rng)
         aad, pl, k = blob(rng, lens), blob(rng, lens), rbytes(rng, 2)
         bt, ctx = rng.choice([("CoseMac0", "CoseMac0"), ("CoseMac", "CoseMac")])
         has = rng.random() < 0.8
-        ops = [A(T("protected"), p_hdr)] + ([A(T("payload"), B(pl))] if has else []) + \
+        with_prot = not (pb == b"" and rng.random() < 0.5)      # an empty protected header may simply never be set
+        ops = ([A(T("protected"), p_hdr)] if with_prot else []) + ([A(T("payload"), B(pl))] if has else []) + \
               [A(T(rng.choice(["create_tag", "try_create_tag"])), B(aad), A(I(0), B(k)))]
         if has:
             want = k + pyspec.mac_structure(ctx, pb, aad, pl)
@@ -426,18 +456,24 @@ def cases_C05(rng, tier):
             out.append(case("helperdesc", fn, enc(m), *args, fam=fn, expect="ok %s %s" % (ct.hex(), want.hex())))
         else:
             out.append(case("helperdesc", fn, enc(m), *args, fam=fn + "-refused", expect="panic", may_panic=True))
-    for _ in range(Q(tier, 150, 1500)):
-        p_hdr = gen_desc_header(rng, 0)
-        pb = b"" if pyspec.header_empty(p_hdr) else enc(pyspec.header_map(p_hdr))
+    for _ in range(Q(tier, 40, 400)):
+        bad = d_protected(None, unencodable_header(rng))
+        ctx = rng.choice(list(pyspec.ENC_CTX))
+        out.append(case("encdata", ctx, enc(bad), b"a", fam="unencodable-protected", expect="panic", may_panic=True))
+        out.append(case("helperdesc", "encrypt0.decrypt", enc(A(bad, D_EMPTY_HEADER, B(b"c"))), b"a", fam="unencodable-protected", expect="panic", may_panic=True))
+    for _ in range(Q(tier, 250, 2500)):
+        p_hdr, pb = builder_header_choice(rng)
         aad, pt, k = blob(rng, lens), rbytes(rng), rbytes(rng, 2)
-        bt = rng.choice(["CoseEncrypt", "CoseEncrypt0", "CoseRecipient"])
+        bt = rng.choice(["CoseEncrypt", "CoseEncrypt0", "CoseRecipient", "CoseRecipient"])
         name = rng.choice(["create_ciphertext", "try_create_ciphertext"])
+        with_prot = not (pb == b"" and rng.random() < 0.5)
+        pre = [A(T("protected"), p_hdr)] if with_prot else []
         if bt == "CoseRecipient":
             ctx = rng.choice(list(pyspec.ENC_CTX))
-            ops = [A(T("protected"), p_hdr), A(T(name), T(ctx), B(pt), B(aad), A(I(0), B(k)))]
+            ops = pre + [A(T(name), T(ctx), B(pt), B(aad), A(I(0), B(k)))]
         else:
             ctx = bt
-            ops = [A(T("protected"), p_hdr), A(T(name), B(pt), B(aad), A(I(0), B(k)))]
+            ops = pre + [A(T(name), B(pt), B(aad), A(I(0), B(k)))]
         if bt == "CoseRecipient" and ctx in ("CoseEncrypt", "CoseEncrypt0"):
             out.append(case("build", bt, enc(('a', ops)), fam="create_ciphertext-refused", expect="panic", may_panic=True))
         else:
@@ -1006,8 +1042,7 @@ def cases_C06(rng, tier):
     for _ in range(Q(tier, 700, 8000)):
         bt = rng.choice(["CoseSign1", "CoseSign", "CoseMac0", "CoseMac", "CoseEncrypt", "CoseEncrypt0", "CoseRecipient"])
         aad, pl, k = rbytes(rng), rbytes(rng), rbytes(rng, 2)
-        ph = hdr_arg(rng); uh = hdr_arg(rng)
-        pb = b"" if pyspec.header_empty(ph) else enc(pyspec.header_map(ph))
+        (ph, pb) = builder_header_choice(rng); uh = hdr_arg(rng)
         pre = builder_ops(rng, bt, rng.choice([0, 0, 1, 2]))
         pre = [o for o in pre if o[1][0][1] not in (b"create_signature", b"try_create_signature", b"create_detached_signature",
                b"try_create_detached_signature", b"add_created_signature", b"try_add_created_signature", b"add_detached_signature",
